@@ -1,7 +1,8 @@
 --------------------------- MODULE M_BATCH ---------------------------
 (* C19: BatchWriteItem of one to three requests over two tables (puts, deletes, repeated tables, absent keys) and
    BatchGetItem of present and absent keys in every reachable state; the specification IS the item-by-item
-   decomposition (BatchApply folds Put / Delete), the invariant BatchOrderIrrelevant checks that the result does
+   decomposition (BatchApply folds Put / Delete IN REQUEST ORDER, which is also what decides batches that name one key
+   twice), the invariant BatchOrderIrrelevant checks that the result does
    not depend on the order of requests on distinct keys (which justifies ignoring Go's map order across tables). *)
 EXTENDS ModelLib
 CONSTANTS KeyBytes, WithGets
@@ -19,11 +20,12 @@ Singles == { Req(t, "put", k @@ [v |-> Num(1)]) : t \in {TA, TB}, k \in Keys } \
 KeyOfReq(r) == <<r.t, IF r.put.some THEN r.put.i.h ELSE r.del.k.h>>
 Batches == { <<a>> : a \in Singles }
            \cup { <<ab[1], ab[2]>> : ab \in { x \in Singles \X Singles : KeyOfReq(x[1]) # KeyOfReq(x[2]) } }
+SameKeyBatches == { <<ab[1], ab[2]>> : ab \in { x \in Singles \X Singles : KeyOfReq(x[1]) = KeyOfReq(x[2]) /\ x[1] # x[2] /\ x[1].t = TA } }
 Gets == { BG(<<[t |-> TA, keys |-> ks]>>) : ks \in { <<K(97)>>, <<K(97), K(98)>> } }
         \cup { BG(<<[t |-> TA, keys |-> <<K(97)>>], [t |-> TB, keys |-> <<K(98), K(97)>>]>>) }
 
 SetupDef == << AddTable("c1", TA, "h", ""), AddTable("c1", TB, "h", "") >>
-MenuDef == SetToSeq({ BW(b) : b \in Batches }) \o (IF WithGets THEN SetToSeq(Gets) ELSE <<>>)
+MenuDef == SetToSeq({ BW(b) : b \in Batches \cup SameKeyBatches }) \o (IF WithGets THEN SetToSeq(Gets) ELSE <<>>)
 BoundDef(d) == TRUE
 
 \* design check: the outcome of a batch on distinct keys does not depend on the order of its requests
